@@ -30,8 +30,10 @@ LEVEL_TEXT = ("Lean 4 theorems over an executable model of Vt100Parser (prefix/l
               "recursive function: next token = the longest prefix of what is left that is a table sequence / CPR / "
               "mouse report, proved to be the longest; else one raw character; ESC[200~ ... ESC[201~ = one verbatim "
               "paste press; an unterminated paste stays open) - also segment by segment between flush timeouts, and "
-              "end to end from the bytes waiting on the descriptor through reads of at most 1024 bytes, also up to "
-              "EOF. Chunk independence (character and byte streams, flushes at fixed positions), losslessness "
+              "end to end, for every codec modelled, from the bytes waiting on the descriptor through reads of at "
+              "most 1024 bytes to the spec on the text these bytes spell in the encoding the input was created with, "
+              "also up to EOF; for every single-byte table every byte is exactly one character and nothing is ever "
+              "pending. Chunk independence (character and byte streams, flushes at fixed positions), losslessness "
               "(input = data of the key presses + pending prefix/paste), 'flush empties the prefix', 'every table "
               "sequence / CPR / mouse report decodes to its key(s) as one press, data on the first', the meta prefix "
               "(ESC + char = two presses) and raw / control characters inside a stream are proved directly and "
@@ -66,7 +68,10 @@ RULE = ("exhaustive: every string over a 13-symbol alphabet {ESC [ 1 ; M < O A ~
         "truncated, malformed), paste blocks, control, printable, non-BMP characters, cut into random reads with "
         "random flushes, random (also invalid) byte strings with random cuts, valid streams (also > 1024 bytes, "
         "also inside long pastes) through Vt100Input on a real pipe with random writes / reads / flushes / EOF / "
-        "closed descriptor, random typeahead and cache op sequences. A case is non-trivial when its stream "
+        "closed descriptor; a real Vt100Input on a stdin object of each of 6 encodings over an os.pipe: 12 "
+        "short byte streams with bytes 0x80-0xFF in every chunking plus random byte strings (streams with bytes "
+        "that are not characters of the encoding go through the reader level), and an unknown encoding; random "
+        "typeahead and cache op sequences. A case is non-trivial when its stream "
         "contains ESC (bytes: a byte >= 0x80; fd: something is written and read; ta: something is stored)")
 EXHAUSTIVE = True
 EXHAUSTIVE_SCOPE = {
@@ -103,6 +108,9 @@ PARTIAL_SCOPE = ["Win32 input, raw/cooked mode and the event-loop attachment (_a
                  "OSError out of os.read on a healthy descriptor (EINTR/SIGWINCH: `data = b''`) is modelled only "
                  "together with the dead descriptor; the Application's use of the typeahead store (store on exit, "
                  "feed on start) is not modelled, only the store itself",
+                 "encodings: UTF-8 and five single-byte code pages are modelled; other multi-byte encodings (utf-16, "
+                 "gbk, shift_jis ...) are not (codecOf answers none, cases are not generated); the isatty warning "
+                 "of Vt100Input.__init__ is not modelled",
                  "bytes that are still an incomplete UTF-8 sequence at EOF stay in the decoder and are never "
                  "delivered (modelled and driven as it is; they are not 'characters' in the property's sense)"]
 ANCHORS = ["src/prompt_toolkit/input/vt100_parser.py", "src/prompt_toolkit/input/ansi_escape_sequences.py",
@@ -115,7 +123,8 @@ MODELLED = {
         "Vt100Parser._call_handler", "Vt100Parser.feed", "Vt100Parser.flush", "Vt100Parser.feed_and_flush",
         "Vt100Parser.reset", "Vt100Parser._start_parser"],
     "src/prompt_toolkit/input/posix_utils.py": ["PosixStdinReader.__init__", "PosixStdinReader.read"],
-    "src/prompt_toolkit/input/vt100.py": ["Vt100Input.read_keys", "Vt100Input.flush_keys", "Vt100Input.closed"],
+    "src/prompt_toolkit/input/vt100.py": ["Vt100Input.__init__", "Vt100Input.read_keys", "Vt100Input.flush_keys",
+                                          "Vt100Input.closed"],
     "src/prompt_toolkit/input/typeahead.py": ["store_typeahead", "get_typeahead", "clear_typeahead"],
 }
 
@@ -227,8 +236,11 @@ def model_lines(case):
     if k == "spec":
         return [f"{o} {enc_str(s)}" for s in case["strs"] for o in ("spec", "lm")]
     if k in ("fd", "rd"):
-        return ["reset"] + [FD_LINE[op[0]] + (" " + enc_bytes(bytes(op[1])) if op[0] == "w" else "")
-                            for op in case["ops"]]
+        new = []
+        if "enc" in case:  # Vt100Input(stdin with .encoding) / PosixStdinReader(fd, encoding=…)
+            new = [("inew " if k == "fd" else "rnew ") + enc_str(case["enc"])]
+        return ["reset"] + new + [FD_LINE[op[0]] + (" " + enc_bytes(bytes(op[1])) if op[0] == "w" else "")
+                                  for op in case["ops"]]
     if k == "ta":
         out = ["reset"]
         for op in case["ops"]:
@@ -266,6 +278,8 @@ def fd_run(case):
     -> one entry per op: "ok" or (keys, parser state, decoder buffer, closed)"""
     from prompt_toolkit.input import create_pipe_input
 
+    if "enc" in case:
+        return fd_run_enc(case)
     out = []
     with create_pipe_input() as inp:
         p = inp.vt100_parser
@@ -295,6 +309,71 @@ def fd_run(case):
     return out
 
 
+class _FakeStdin:
+    """a terminal's stdin object: an encoding and a file descriptor"""
+
+    def __init__(self, fd, encoding):
+        self._fd = fd
+        self.encoding = encoding
+
+    def isatty(self):
+        return True
+
+    def fileno(self):
+        return self._fd
+
+
+def fd_run_enc(case):
+    """kind "fd" with "enc": a real Vt100Input constructed on a stdin object whose .encoding is
+    case["enc"] and whose fileno() is the read end of an os.pipe.  First entry: "ok" or
+    "err:LookupError" for the constructor; then as fd_run."""
+    from prompt_toolkit.input.vt100 import Vt100Input
+
+    r, w = os.pipe()
+    open_r, open_w = True, True
+    out = []
+    try:
+        try:
+            inp = Vt100Input(_FakeStdin(r, case["enc"]))
+        except LookupError:
+            return ["err:LookupError"] + ["bad-op"] * 0
+        out.append("ok")
+        p = inp.vt100_parser
+
+        def snap(keys):
+            st = (bool(p._in_bracketed_paste), getattr(p, "_paste_buffer", ""),
+                  p._input_parser.gi_frame.f_locals["prefix"])
+            return ([(key_name(k.key), k.data) for k in keys], st,
+                    bytes(inp.stdin_reader._stdin_decoder.getstate()[0]), bool(inp.closed))
+
+        for op in case["ops"]:
+            if op[0] == "w":
+                os.write(w, bytes(op[1]))
+                out.append("ok")
+            elif op[0] == "cw":
+                if open_w:
+                    os.close(w)
+                    open_w = False
+                out.append("ok")
+            elif op[0] == "cr":
+                if open_r:
+                    os.close(r)
+                    open_r = False
+                out.append("ok")
+            elif op[0] == "rk":
+                out.append(snap(inp.read_keys()))
+            elif op[0] == "fk":
+                out.append(snap(inp.flush_keys()))
+            else:
+                raise ValueError(op)
+    finally:
+        if open_r:
+            os.close(r)
+        if open_w:
+            os.close(w)
+    return out
+
+
 def rd_run(case):
     """kind "rd": a real PosixStdinReader on a real pipe (arbitrary bytes).  ops w / cw / cr / rr
     -> "ok" or (text, decoder buffer, closed)"""
@@ -304,7 +383,11 @@ def rd_run(case):
     open_r, open_w = True, True
     out = []
     try:
-        reader = PosixStdinReader(r)
+        if "enc" in case:
+            reader = PosixStdinReader(r, encoding=case["enc"])
+            out.append("ok")
+        else:
+            reader = PosixStdinReader(r)
         for op in case["ops"]:
             if op[0] == "w":
                 os.write(w, bytes(op[1]))
@@ -486,10 +569,10 @@ def impl_lines(case):
             out += [real_flushed([["feed", s]]), str(real_longest(s))]
         return out
     if k == "fd":
-        return ["ok"] + [x if x == "ok" else fmt(x[0], x[1]) + " " + enc_bytes(x[2]) + " " + str(int(x[3]))
+        return ["ok"] + [x if isinstance(x, str) else fmt(x[0], x[1]) + " " + enc_bytes(x[2]) + " " + str(int(x[3]))
                          for x in fd_run(case)]
     if k == "rd":
-        return ["ok"] + [x if x == "ok" else enc_str(x[0]) + " " + enc_bytes(x[1]) + " " + str(int(x[2]))
+        return ["ok"] + [x if isinstance(x, str) else enc_str(x[0]) + " " + enc_bytes(x[1]) + " " + str(int(x[2]))
                          for x in rd_run(case)]
     if k == "ta":
         return ["ok"] + [x if x == "ok" else fmt_presses(x) for x in ta_run(case)]
@@ -776,7 +859,7 @@ def oracle_fd(case):
     got the chance to drain the pipe (no close of the read end, enough reads after the last write)."""
     v = []
     ops = case["ops"]
-    if any(op[0] == "cr" for op in ops) or ops[-1][0] != "fk":
+    if not ops or any(op[0] == "cr" for op in ops) or ops[-1][0] != "fk":
         return v
     written = b"".join(bytes(op[1]) for op in ops if op[0] == "w")
     nreads_after = 0
@@ -788,11 +871,15 @@ def oracle_fd(case):
     if nreads_after * 1024 < len(written):
         return v
     res = fd_run(case)
-    keys = [x for r in res if r != "ok" for x in r[0]]
+    if res and res[0] == "err:LookupError":
+        return v
+    keys = [x for r in res if not isinstance(r, str) for x in r[0]]
     import codecs
-    dec = codecs.getincrementaldecoder("utf-8")("surrogateescape")
+    # the text the terminal sent: the bytes in the encoding of the stdin object the input was
+    # created with (PosixPipeInput: utf-8)
+    dec = codecs.getincrementaldecoder(case.get("enc", "utf-8"))("surrogateescape")
     text = dec.decode(written)
-    last = [r for r in res if r != "ok"][-1]
+    last = [r for r in res if not isinstance(r, str)][-1]
     rec = reconstruct(keys, last[1])
     if rec != text:
         i = next((j for j, (a, b) in enumerate(zip(rec, text)) if a != b), min(len(rec), len(text)))
@@ -823,10 +910,10 @@ def oracle_rd(case):
         return v
     res = rd_run(case)
     written = b"".join(bytes(op[1]) for op in ops if op[0] == "w")
-    reads = [r for r in res if r != "ok"]
+    reads = [r for r in res if not isinstance(r, str)]
     if not reads:
         return v
-    back = "".join(t for t, _, _ in reads).encode("utf-8", "surrogateescape") + reads[-1][1]
+    back = "".join(t for t, _, _ in reads).encode(case.get("enc", "utf-8"), "surrogateescape") + reads[-1][1]
     if not written.startswith(back):
         v.append({"signature": "PosixStdinReader.read | bytes lost or altered",
                   "msg": f"ops={_short_ops(ops)} round trip={back[-40:]!r}"})
@@ -1037,6 +1124,7 @@ def cases(tier, rng):
         yield {"k": "pipe", "s": s, "cuts": cuts}
     # 6. the read path as it is (1024-byte reads, EOF, OSError), 7. typeahead, 8. the prefix cache
     yield from fd_cases(tier, rng)
+    yield from enc_cases(tier, rng)
     yield from ta_cases(tier, rng)
     yield from pc_cases(tier, rng)
 
@@ -1150,6 +1238,55 @@ def fd_cases(tier, rng):
         else:
             ops += [["rr"]] * (len(data) // 1024 + 2)
         yield {"k": "rd", "ops": ops}
+
+
+ENCODINGS = ["latin-1", "cp1252", "iso8859-15", "koi8-r", "ascii", "utf-8"]
+ENC_STREAMS = [[0xE9], [0xC3, 0xA9], [0x9B], [0x9B, 0x41], [0x1B, 0x5B, 0x41, 0xE9], [0x1B, 0xE9], [0xE4, 0xB8, 0x96],
+               [0xA4, 0xFF, 0x80], [0x80, 0x9B, 0xFF, 0x41], [0x81, 0x41, 0x8D], [0xE9, 0x1B, 0x4F, 0x50, 0xC0],
+               [0x1B, 0x5B, 0xC3, 0xA9, 0x41]]
+
+
+def decodable(data: bytes, enc: str) -> bool:
+    try:
+        data.decode(enc)
+        return True
+    except UnicodeDecodeError:
+        return False
+
+
+def enc_case(enc, data, pieces):
+    """Vt100Input level when every byte is a character of the encoding; otherwise (lone surrogates,
+    which the parser model cannot hold) reader level"""
+    if decodable(bytes(data), enc):
+        ops = []
+        for pc in pieces:
+            ops += [["w", list(pc)], ["rk"]]
+        return {"k": "fd", "enc": enc, "ops": ops + [["rk"], ["fk"]]}
+    ops = []
+    for pc in pieces:
+        ops += [["w", list(pc)], ["rr"]]
+    return {"k": "rd", "enc": enc, "ops": ops + [["rr"]]}
+
+
+def enc_cases(tier, rng):
+    """the ENCODING of the input: Vt100Input on a stdin object with each encoding; short byte
+    streams with bytes 0x80-0xFF in every chunking; random byte strings with random cuts; an
+    unknown encoding"""
+    quick = tier == "quick"
+    yield {"k": "fd", "enc": "no-such-codec", "ops": []}
+    for enc in ENCODINGS:
+        for data in ENC_STREAMS:
+            for comp in compositions(bytes(data)):
+                yield enc_case(enc, data, comp)
+        for _ in range(40 if quick else 600):
+            n = rng.randrange(1, 14)
+            data = bytes(rng.choice([0x1B, 0x5B, 0x41, 0x4F, 0x50, 0x32, 0x30, 0x7E, 0x3B, 0x52, 0x9B, 0xE9, 0xC3, 0xA9,
+                                     0x80, 0xFF, rng.randrange(256)]) for _ in range(n))
+            if enc == "utf-8" and rng.random() < 0.7:
+                data = rand_stream(rng, rng.choice([1, 2, 4])).encode("utf-8")
+            cuts = sorted(set(rng.randrange(1, len(data) + 1) for _ in range(rng.choice([0, 1, 2, 5])))) if data else []
+            cs = [0] + [c for c in cuts if c < len(data)] + [len(data)]
+            yield enc_case(enc, data, [data[a:b] for a, b in zip(cs, cs[1:]) if b > a] or [b""])
 
 
 TA_KEYS = ["fd-0", "pipe-input-1"]
